@@ -108,7 +108,8 @@ def rename_consistently(prog, suffix="_r9"):
             collect(st)
 
     def nn(x):
-        return x + suffix if x in declared else x
+        # @reference names are visible in the document (component names): not renamed
+        return x + suffix if x in declared and not x.startswith("@") else x
 
     def go(n):
         n = dict(n)
